@@ -151,7 +151,7 @@ func init() {
 		Assumptions: []string{
 			"specmodel.Parse and the independent canonical renderer refPrintLines",
 			"should-total is compared by value ((+8h!) -> (8h!), (0m!) may be omitted); irregular dash spacing (8:00- 9:00) may become either canonical form",
-			"the bulk of the sweep calls the serialiser klog print uses (parser.SerialiseRecords with the no-colour serialiser); every 64th case and the whole notation sweep also run `klog print --no-style FILE` through klog.Run and must give the same bytes",
+			"the bulk of the sweep calls the serialiser klog print uses (parser.SerialiseRecords with the no-colour serialiser); every 256th (quick) / 64th (thorough) case and the whole notation sweep also run `klog print --no-style FILE` through klog.Run and must give the same bytes",
 		},
 		Units: func(t fw.Tier) int { return len(planSpans(famSizes(c09Families(t)), c01Chunk)) },
 		RunUnit: func(c *fw.Ctx, unit int) {
@@ -163,7 +163,7 @@ func init() {
 				if text == "" {
 					continue
 				}
-				c09Text(c, f.name, i, text, f.name == "notation" || i%64 == 0)
+				c09Text(c, f.name, i, text, f.name == "notation" || (c.Tier == fw.Thorough && i%64 == 0) || i%256 == 0)
 			}
 		},
 		Replay: func(c *fw.Ctx, raw json.RawMessage) {
